@@ -15,11 +15,14 @@ from mirsmt.models import M, It, PyFn, call_fn, B
 from mirsmt.tmpl import short_fn
 
 class Env:
-    def __init__(self): self.log = []; self.n = 0
+    def __init__(self): self.log = []; self.n = 0; self.version = z3.BitVecVal(0, 64)
     def fresh(self, kind, sort):
         self.n += 1
         v = z3.Bool('%s_%d' % (kind, self.n)) if sort == 'bool' else z3.BitVec('%s_%d' % (kind, self.n), 64)
-        self.log.append((kind, v)); return v
+        self.log.append((kind, v))
+        # the e-graph as the loop sees it: an abstract version that moves whenever rewriting reports progress or a hook says it changed the e-graph
+        if kind == 'progress' or kind.startswith('hookmut'): self.version = z3.If(v, self.version + 1, self.version)
+        return v
 
 def envof(ex): return getattr(ex, 'runner_env', None)
 
@@ -27,6 +30,13 @@ def envof(ex): return getattr(ex, 'runner_env', None)
 def st_apply_rewrites(ex, c, args, m):
     e = envof(ex)
     return e.fresh('progress', 'bool') if e else NotImplemented
+@M.add(r'^(egraph::)?EGraph::<.*>::progress$|^rewrite::<impl (egraph::)?EGraph<L, N>>::progress$', front=True, first=True)
+def st_progress(ex, c, args, m):
+    e = envof(ex)
+    if not e: return NotImplemented
+    PF = ex.session._fields['ProgressMeasure'] if hasattr(ex.session, '_fields') and 'ProgressMeasure' in ex.session._fields else ['a', 'b', 'c', 'd']
+    e.log.append(('measure', e.version))
+    return Struct({i: (e.version if i == 0 else z3.BitVecVal(0, 64)) for i in range(len(PF))}, 'ProgressMeasure')
 @M.add(r'^(egraph::)?EGraph::<.*>::total_number_of_nodes$', front=True, first=True)
 def st_nodes(ex, c, args, m):
     e = envof(ex)
@@ -77,6 +87,18 @@ def st_and_then(ex, c, args, m):
 @M.add(r'^<(usize|u64) as TryInto<(u64|usize)>>::try_into$', front=True)
 def st_try_into(ex, c, args, m): return ok(args[0])
 
+def native_hook_replay(kind, label):
+    """the hook obligation has a native scenario (natdiff `runner` case: a hook inserts a term that a rule matches in the first round without progress);
+    other runner-loop obligations speak about stubbed environment answers and are not replayed (None)"""
+    if 'no hook changed the e-graph' not in label: return None
+    from mirsmt import native
+    out = []
+    for r in (1, 2):
+        res = native.run_cases('case runner:x %s %d\n\n' % (kind, r)).get('runner:x')
+        out.append(res['result'] if res else 'no native result')
+        if res and 'stop=Saturated' in res['result'] and 'rules_change_again=true' in res['result']: return True, '%s, hook changes the e-graph in round %d: %s' % (kind, r, res['result'])
+    return False, '; '.join(out)
+
 def unit(tier):
     t0 = time.time()
     S_ = Session((), True); R = S_.resolver; R.tymap.clear(); R.tymap.update({'L': 'Lf', 'N': '()', 'IterData': '()'})
@@ -96,6 +118,7 @@ def unit(tier):
             hooks = []
             for h in range(nhooks):
                 def hook(ex__, runner, h=h):
+                    env.fresh('hookmut%d' % h, 'bool')       # hooks get the runner mutably: this call may have changed the e-graph observably
                     ok_ = env.fresh('hook%d' % h, 'bool')
                     if ex__.decide(ok_): return ok(Unit())
                     return err(PyStr('hook%d failed' % h))
@@ -125,12 +148,15 @@ def unit(tier):
                     if k == 'progress': seen += 1; last = []
                     last.append((k, v))
                 nodes_seen = [v for k, v in last if k == 'nodes']; elapsed_seen = [v for k, v in last if k == 'elapsed']
-                hooks_last = [(k, v) for k, v in last if k.startswith('hook')]
+                hooks_last = [(k, v) for k, v in last if k.startswith('hook') and not k.startswith('hookmut')]
+                hookmut_last = [v for k, v in last if k.startswith('hookmut')]
                 reason = {v: k.split('::')[1] for k, v in E.items() if k.startswith('StopReason::')}[sr.disc]
                 all_hooks_ok = z3.And(*[v for _, v in hooks_last]) if hooks_last else z3.BoolVal(True)
                 if reason == 'Saturated':
                     claims.append(('Saturated => the last apply_rewrites returned false', z3.Not(prog[-1])))
                     claims.append(('Saturated => no hook failed in that iteration', all_hooks_ok))
+                    # "applying every rule once more changes nothing": the rules have not seen what a hook changed after the last apply_rewrites call
+                    claims.append(('Saturated => no hook changed the e-graph after the last apply_rewrites', z3.Not(z3.Or(*hookmut_last)) if hookmut_last else z3.BoolVal(True)))
                     claims.append(('Saturated => no limit exceeded in that iteration', z3.And(z3.ULE(z3.BitVecVal(iters - 1, 64), iter_limit), z3.ULE(nodes_seen[0], node_limit) if nodes_seen else z3.BoolVal(True), z3.ULE(elapsed_seen[0], time_limit) if elapsed_seen else z3.BoolVal(True))))
                 elif reason == 'IterationLimit': claims.append(('IterationLimit => iterations run exceed the limit', z3.UGT(z3.BitVecVal(iters - 1, 64), iter_limit)))
                 elif reason == 'NodeLimit': claims.append(('NodeLimit => the node count seen by the check exceeds the limit', z3.UGT(nodes_seen[0], node_limit) if nodes_seen else z3.BoolVal(False)))
@@ -138,7 +164,7 @@ def unit(tier):
                 elif reason == 'Other': claims.append(('Other => a hook failed in the last iteration', z3.Not(all_hooks_ok)))
                 claims.append(('egraph_nodes == the count the e-graph reported last', nodes == [v for k, v in log if k == 'nodes'][-1]))
                 # hooks get the runner mutably and may insert nodes: the count of the report has to be read after the last hook call
-                li = [i for i, (k, v) in enumerate(log) if k == 'nodes']; hi = [i for i, (k, v) in enumerate(log) if k.startswith('hook')]
+                li = [i for i, (k, v) in enumerate(log) if k == 'nodes']; hi = [i for i, (k, v) in enumerate(log) if k.startswith('hook') and not k.startswith('hookmut')]
                 if hi: claims.append(('the node count of the report is read after the last hook call', z3.BoolVal(bool(li) and li[-1] > hi[-1])))
                 for label, c in claims:
                     okv, m = ex.valid(c)
@@ -147,11 +173,16 @@ def unit(tier):
             inconclusive.append('Runner::run with %d hooks: %s' % (nhooks, str(e)[:300]))
         paths += n_p
         samples.append({'obligation': 'Runner::run, %d hook(s), iter_limit <= %d symbolic, node/time limits and all environment answers symbolic' % (nhooks, maxit), 'paths': n_p, 'verdict': 'holds' if not bad else 'VIOLATED'})
-        for label, pc in bad[:2]:
+        seen_lab = set()
+        for label, pc in bad:
+            if label.split('[')[0] in seen_lab or len(seen_lab) >= 3: continue
+            seen_lab.add(label.split('[')[0])
             s = z3.Solver(); s.add(*pc); s.check(); m = s.model()
             key = 'runner:%s' % re.sub(r'[^\w]', '_', label.split('[')[0])[:50]
-            path = common.write_replay('C15', key, {'property': 'C15', 'level': 'runner-loop', 'obligation': label, 'environment': {str(d): str(m[d]) for d in m.decls()}})
-            violations.append((key, path, 'Runner::run: %s; environment %s' % (label, {str(d): str(m[d]) for d in m.decls()})))
+            nat = native_hook_replay('run', label)
+            if nat is not None and not nat[0]: inconclusive.append('runner-loop finding "%s" does not reproduce natively: %s' % (label, nat[1])); continue
+            path = common.write_replay('C15', key, {'property': 'C15', 'level': 'runner-loop', 'obligation': label, 'environment': {str(d): str(m[d]) for d in m.decls()}, 'native': nat and nat[1]})
+            violations.append((key, path, 'Runner::run: %s; environment %s%s' % (label, {str(d): str(m[d]) for d in m.decls()}, '; native: ' + nat[1] if nat else '')))
     # ---- run_eqsat (the older loop)
     eqsat = R.M('run_eqsat')
     il = z3.BitVec('iter_limit', 64); tl = z3.BitVec('time_limit_s', 64)
@@ -159,6 +190,7 @@ def unit(tier):
         env = Env(); ex_.runner_env = env
         ex_.assume(z3.ULE(il, maxit))
         def hook(ex__, eg):
+            env.fresh('hookmut', 'bool')
             ok_ = env.fresh('hook', 'bool')
             if ex__.decide(ok_): return ok(Unit())
             return err(PyStr('hook failed'))
@@ -177,7 +209,9 @@ def unit(tier):
             claims = [('iterations <= iter_limit', z3.ULE(iters, il)), ('rounds == iterations + 1', z3.BoolVal(len(prog) == conc(iters) + 1)),
                       ('egraph_nodes == the count the e-graph reported', nodes == [v for k, v in log if k == 'nodes'][-1]),
                       ('the node count of the report is read after the last hook call', z3.BoolVal([i for i, (k, v) in enumerate(log) if k == 'nodes'][-1] > [i for i, (k, v) in enumerate(log) if k == 'hook'][-1]))]
-            if reason == 'Saturated': claims += [('Saturated => the last apply_rewrites returned false', z3.Not(prog[-1])), ('Saturated => the last hook succeeded', hooks_[-1])]
+            hm = [v for k, v in log if k == 'hookmut']
+            if reason == 'Saturated': claims += [('Saturated => the last apply_rewrites returned false', z3.Not(prog[-1])), ('Saturated => the last hook succeeded', hooks_[-1]),
+                                                 ('Saturated => no hook changed the e-graph after the last apply_rewrites', z3.Not(hm[-1]))]
             elif reason == 'Other': claims.append(('Other => the last hook failed', z3.Not(hooks_[-1])))
             elif reason == 'IterationLimit': claims.append(('IterationLimit => iterations reached the limit', z3.UGE(iters, il)))
             elif reason == 'TimeLimit': claims.append(('TimeLimit => elapsed seconds reached the limit', z3.UGE(el[-2] if len(el) > 1 else el[-1], tl)))
@@ -188,11 +222,16 @@ def unit(tier):
         inconclusive.append('run_eqsat: %s' % str(e)[:300])
     paths += n_p
     samples.append({'obligation': 'run_eqsat, iter_limit <= %d symbolic, time limit and all environment answers symbolic' % maxit, 'paths': n_p, 'verdict': 'holds' if not bad else 'VIOLATED'})
-    for label, pc in bad[:2]:
+    seen_lab = set()
+    for label, pc in bad:
+        if label.split('[')[0] in seen_lab or len(seen_lab) >= 3: continue
+        seen_lab.add(label.split('[')[0])
         s = z3.Solver(); s.add(*pc); s.check(); m = s.model()
-        key = 'runner:%s' % re.sub(r'[^\w]', '_', label.split('[')[0])[:50]
-        path = common.write_replay('C15', key, {'property': 'C15', 'level': 'runner-loop', 'obligation': label, 'environment': {str(d): str(m[d]) for d in m.decls()}})
-        violations.append((key, path, 'run_eqsat: %s; environment %s' % (label, {str(d): str(m[d]) for d in m.decls()})))
+        key = 'runner:eqsat_%s' % re.sub(r'[^\w]', '_', label.split('[')[0])[:44]
+        nat = native_hook_replay('eqsat', label)
+        if nat is not None and not nat[0]: inconclusive.append('run_eqsat finding "%s" does not reproduce natively: %s' % (label, nat[1])); continue
+        path = common.write_replay('C15', key, {'property': 'C15', 'level': 'runner-loop', 'obligation': label, 'environment': {str(d): str(m[d]) for d in m.decls()}, 'native': nat and nat[1]})
+        violations.append((key, path, 'run_eqsat: %s; environment %s%s' % (label, {str(d): str(m[d]) for d in m.decls()}, '; native: ' + nat[1] if nat else '')))
     return {'samples': samples, 'violations': violations, 'inconclusive': inconclusive, 'states': paths, 'transitions': ex.n_branches, 'validated': 0,
             'functions_encoded': sorted(short_fn(f) for f in ex.inlined), 'library_models': sorted(ex.modelled), 'solver_time_s': round(ex.t_solver, 2), 'wall_s': time.time() - t0,
             'summary': 'Runner loop with stubbed environment: %d paths' % paths,
